@@ -15,5 +15,5 @@ func main() {
 	copyh.Main("C04",
 		"distinct (graph, root, initial destination, mode, store pairing, K, MapRoot/platform) whose reachable part has >= 3 nodes and meets an already-present node, a shared node, a duplicate or foreign successor or a subject link",
 		copyh.Budget{Main: 300, Contention: 500, Twin: 0, CbFail: 200, Mount: 200, Reps: 0},
-		copyh.Budget{Main: 2000, Contention: 3000, Twin: 0, CbFail: 1200, Mount: 1000, Reps: 4})
+		copyh.Budget{Main: 2000, Contention: 3000, Twin: 0, CbFail: 1200, Mount: 1000, Reps: 4, Small: true})
 }
